@@ -392,7 +392,7 @@ class Verdicts(object):
 
 
 def judge(chk, rows, origin, out):
-    """rows: list of {"id", "ops", "obs"} -> verdicts into `out` (Verdicts)."""
+    """rows: list of {"id", "ops", "obs"}, origin: id -> part name; verdicts go into `out` (Verdicts)."""
     if not rows:
         return
     r0 = len(chk.tlc_runs)
@@ -412,7 +412,7 @@ def judge(chk, rows, origin, out):
         sig = "%s|%s:%s" % (clause, OPNAME[opcode] if 0 < opcode < len(OPNAME) else "row", detail)
         text = "history [%s] step %d: observed %s (%s)" % (
             pretty(row["ops"], step), step, json.dumps(show_obs(row["obs"][step - 1]) if 0 < step <= len(row["obs"]) else {},
-                                                       sort_keys=True), origin)
+                                                       sort_keys=True), origin.get(rid, ""))
         out.add(clause, sig, text, row["ops"])
     diverging = set()
     for _, _, res in chk.tlc_runs[r0:]:
@@ -431,7 +431,7 @@ class Session(object):
         self.world = World()
         self.out = Verdicts()
         self.rows = []
-        self.origin = ""
+        self.origin = {}
         self.nrows = 0
         self.nsteps = 0
         self.by_op = {}
@@ -440,9 +440,7 @@ class Session(object):
         self.sink = io.StringIO()
 
     def feed(self, origin, ops, predicted=None):
-        if origin != self.origin:
-            self.drain()
-            self.origin = origin
+        self.origin[self.nrows + 1] = origin
         stdout = sys.stdout
         sys.stdout = self.sink          # Context.print_cleanup_error writes to sys.stdout
         try:
@@ -468,6 +466,7 @@ class Session(object):
         if self.rows:
             judge(self.chk, self.rows, self.origin, self.out)
             self.rows = []
+            self.origin = {}
 
 
 def run(chk):
